@@ -18,6 +18,9 @@ CLAIMS = {
  "C03": ("Lean 4 theorems (Props/C03.lean, in progress; logical level: restart preserves the record multiset, hence every Spec-determined answer, and sets next id above all ids); correspondence closes the storage and reopens damaged copies of the directory for every index file and every damage pattern of the property (removed, header only, written flag cleared, stale/larger blob_size, truncated at many lengths), eagerly and lazily, comparing all answers and next_blob_id with the values before the close.",
          "4/C03", "byte-level index validation theorems follow with the L4/L5 layer; same-length corruption of an index body is outside the property's damage list",
          "Lean 4 proof (answers are a function of blob contents) + implementation-vs-itself damage sweep + correspondence"),
+ "C05": ("Lean 4 theorems (Props/C05.lean, 27): write_path_independent (single/double buffer, every size and threshold), patch_eq_serialize (for any checksum function), header/blob-header parse round-trips, load_roundtrip, crc_window + crc32c_detects_window (any alteration inside 4 adjacent bytes / 32 consecutive bits changes CRC-32C), load_checks, altered_never_served, altered_scan_rejected; the L5 byte model is tied to the code byte-exactly: length and CRC-32C of every blob file vs blobBytes of the model after every step, over all size classes around both thresholds; plus on-disk alteration sweeps read back through the API.",
+         "4/C05", "bursts wider than 4 bytes are not generated (theorem covers 32 consecutive bits); metadata bytes are not checksummed by Pearl; u64 wrap-around excluded by InRange hypotheses",
+         "Lean 4 proofs over the byte-level model (bincode layout, CRC-32C) + byte-exact correspondence + alteration sweep"),
  "C13": ("Lean 4 worker model (Model/Worker.lean, Props/C13.lean: worker_total, overflow_switches, rotation_continues, dumps_complete, close_terminates over every message sequence; the pre-fix loop is refuted on a concrete witness); the driver executes background calls through the proved processMsgFixed; correspondence drives all *_in_background calls in every active-blob state, then overflows the active blob past the debounce and closes; liveness oracle (worker alive, rotation happened, settle and close return).",
          "4/C13", "wall-clock time abstracted to lower bounds (explicit 260 ms waits > 200 ms debounce); nondeterministic early rotations are taken from the implementation transcript and checked for enabledness",
          "Lean 4 proof over the worker's message loop + correspondence"),
